@@ -21,12 +21,12 @@ def script_of(steps, unit):
     for si, s in enumerate(steps):
         op = s["op"]
         if op == "append":
-            o = {"op": "append", "index": s["index"], "term": s["term"], "id": s["id"], "sz": s["sz"], "unit": unit}
+            o = {"op": "append", "index": s["index"], "term": s["term"], "id": s["id"], "sz": s["sz"], "unit": unit, "sync": True}
             lines.append(o); owner.append(si)
             if s["res"] == "ok":
                 live.append(dict(s))
         elif op == "batch":
-            o = {"op": "batch", "unit": unit, "entries": [{"index": e["index"], "term": e["term"], "id": e["id"], "sz": e["sz"]} for e in s["entries"]]}
+            o = {"op": "batch", "unit": unit, "sync": True, "entries": [{"index": e["index"], "term": e["term"], "id": e["id"], "sz": e["sz"]} for e in s["entries"]]}
             lines.append(o); owner.append(si)
             live.extend(dict(e) for e in s["entries"])
         elif op == "truncate":
@@ -46,7 +46,7 @@ def script_of(steps, unit):
             lines.append({"op": "save_hs", "term": s["term"], "vote": s["vote"]}); owner.append(si)
         elif op == "members":
             req = {"Members": sorted(s["members"])}
-            lines.append({"op": "append_req", "index": s["index"], "term": s["term"], "req": req}); owner.append(si)
+            lines.append({"op": "append_req", "index": s["index"], "term": s["term"], "req": req, "sync": True}); owner.append(si)
             lines.append({"op": "apply", "index": s["index"], "req": req}); owner.append(si)
             live.append(dict(s, sz=1))
             applied = max(applied, s["index"]) if applied == s["index"] - 1 else applied
@@ -119,12 +119,27 @@ def order_leg(c, sc, name, order):
              (name, tv["rejected_at"], json.dumps(ln)[:200]))
 
 
-def probe(imgdir):
-    """open a crash image with the real start-up code; -> rec"""
-    p = subprocess.Popen([BIN, "node", "run", imgdir, "--settle", "0"], stdin=subprocess.PIPE, stdout=subprocess.PIPE,
-                         stderr=subprocess.DEVNULL, text=True, env=dict(os.environ, RUST_LOG="off"))
+NO_USE = {"ran": False, "accepted": True, "booted2": True, "appended": [], "live": [], "reopened": [], "error": ""}
+
+
+def _node(imgdir):
+    return subprocess.Popen([BIN, "node", "run", imgdir, "--settle", "0"], stdin=subprocess.PIPE, stdout=subprocess.PIPE,
+                            stderr=subprocess.DEVNULL, text=True, env=dict(os.environ, RUST_LOG="off"))
+
+
+def _ask(p, o):
+    p.stdin.write(json.dumps(o) + "\n"); p.stdin.flush()
+    ln = p.stdout.readline()
+    return json.loads(ln) if ln.strip() else {"res": "died"}
+
+
+def probe(imgdir, unit=1):
+    """open a crash image with the real start-up code; -> rec.  A store that came back is then USED the way Raft uses it
+    after a restart - three appends behind the last log index it reported, each acknowledged - killed at that quiescent
+    point and opened once more: rec["use"] (requirement UsableAfterRecovery of CrashStore.tla)."""
+    p = _node(imgdir)
     rec = {"booted": False, "entries": [], "term": 0, "vote": 0, "members": [], "last_applied": 0, "last_log_index": 0,
-           "last_log_term": 0, "snapshot_index": 0, "error": ""}
+           "last_log_term": 0, "snapshot_index": 0, "error": "", "use": json.loads(json.dumps(NO_USE))}
     try:
         script = [{"op": "initial_state"}, {"op": "snap_get"}]
         out_first = p.stdout.readline()
@@ -137,12 +152,11 @@ def probe(imgdir):
             return rec
         ans = []
         for o in script:
-            p.stdin.write(json.dumps(o) + "\n"); p.stdin.flush()
-            ln = p.stdout.readline()
-            if not ln.strip():
+            a = _ask(p, o)
+            if a.get("res") == "died":
                 rec["error"] = "process died at %s" % o["op"]
                 return rec
-            ans.append(json.loads(ln))
+            ans.append(a)
         st, sn = ans
         if st.get("res") != "ok":
             rec["error"] = "get_initial_state failed: %s" % st.get("err")
@@ -150,14 +164,50 @@ def probe(imgdir):
         rec.update(term=st["term"], vote=st["vote"], members=st["members"], last_applied=st["last_applied"],
                    last_log_index=st["last_log_index"], last_log_term=st["last_log_term"])
         rec["snapshot_index"] = sn.get("index", 0) if sn.get("res") == "ok" else 0
-        p.stdin.write(json.dumps({"op": "read", "a": 1, "b": st["last_log_index"] + 4}) + "\n"); p.stdin.flush()
-        ln = p.stdout.readline()
-        rd = json.loads(ln) if ln.strip() else {"res": "died"}
+        rd = _ask(p, {"op": "read", "a": 1, "b": st["last_log_index"] + 4})
         if rd.get("res") != "ok":
             rec["error"] = "reading the log failed: %s" % rd.get("err", rd.get("res"))
             return rec
         rec["entries"] = rd["entries"]
         rec["booted"] = True
+        # ---- use the recovered store (only when the index it reports is the end of what it returns: LastIndexReadable
+        # judges the other case, and an append "behind the end" would then be ill-defined)
+        es = rec["entries"]
+        end_ok = (es[-1]["index"] == st["last_log_index"]) if es else (st["last_log_index"] <= rec["snapshot_index"])
+        if not end_ok:
+            return rec
+        use = json.loads(json.dumps(NO_USE))
+        use["ran"] = True
+        rec["use"] = use
+        nxt = st["last_log_index"] + 1
+        term = max(st["term"], st["last_log_term"], 1)
+        for j, sz in enumerate((1, 3, 2)):
+            e = {"index": nxt + j, "term": term, "id": 990001 + j}
+            a = _ask(p, dict(e, op="append", sz=sz, unit=unit, sync=True))
+            if a.get("res") != "ok":
+                use["accepted"] = False
+                use["error"] = "append at %d after recovery: %s" % (nxt + j, a.get("err", a.get("res")))
+                return rec
+            use["appended"].append(e)
+        rd = _ask(p, {"op": "read", "a": 1, "b": nxt + 7})
+        if rd.get("res") != "ok":
+            use["accepted"] = False
+            use["error"] = "reading after the appends failed: %s" % rd.get("err", rd.get("res"))
+            return rec
+        use["live"] = rd["entries"]
+        p.kill(); p.wait()
+        p = _node(imgdir)
+        out_first = p.stdout.readline()
+        if not out_first.strip() or json.loads(out_first).get("res") != "booted":
+            use["booted2"] = False
+            use["error"] = "second start-up failed: %s" % out_first.strip()[:200]
+            return rec
+        rd = _ask(p, {"op": "read", "a": 1, "b": nxt + 7})
+        if rd.get("res") != "ok":
+            use["booted2"] = False
+            use["error"] = "reading after the second start failed: %s" % rd.get("err", rd.get("res"))
+            return rec
+        use["reopened"] = rd["entries"]
         return rec
     finally:
         try:
@@ -222,7 +272,7 @@ def observations(sc, name, steps, unit, max_images, tail_only=0):
         k, files, n_ack, last_ev = imgs[j]
         d = os.path.join(sc, name, "img_%d" % j)
         crashimg.materialise(files, d)
-        rec = probe(d)
+        rec = probe(d, unit)
         shutil.rmtree(d, ignore_errors=True)
         # last fully acknowledged step, step possibly in flight
         acked_steps = -1
@@ -332,6 +382,11 @@ def run(tier):
     c.cov["file_mutations_journalled"] = mutations
     c.cov["distinct_images"] = images_total
     c.cov["images_opened"] = len(all_obs)
+    used = [o for o in all_obs if o["rec"].get("use", {}).get("ran")]
+    c.cov["images_used_after_recovery"] = len(used)
+    c.cov["images_used_with_empty_log"] = sum(1 for o in used if not o["rec"]["entries"])
+    if len(used) * 2 < len(all_obs):
+        raise vlib.ToolError("C04: only %d of %d recovered images could be used after the recovery (UsableAfterRecovery would be vacuous)" % (len(used), len(all_obs)))
     c.cov["images_by_inflight_op"] = {k: sum(1 for o in all_obs if o["inflight"]["op"] == k) for k in sorted({o["inflight"]["op"] for o in all_obs})}
     c.sample({"observation": {k: v for k, v in all_obs[len(all_obs) // 2].items() if k not in ("before", "after")}})
     c.assumptions += [
@@ -342,13 +397,19 @@ def run(tier):
         "the journal); the operation after the last acknowledged one is treated as possibly in flight",
         "quick tier opens at most 90 evenly spread images per history; thorough opens every distinct image",
         "MetaWritten is the property's weak form (any value written before the kill, including the initial one)",
+        "an append counts as acknowledged AND FLUSHED (the property's words) when the node answered it: the harness reads the "
+        "entry back before it answers, which returns only after the pending write of the store's file handle (the store "
+        "itself answers an append as soon as the record is handed to the file; its flush timer runs every 500 ms)",
+        "UsableAfterRecovery: every image whose store came back (and reports the end of what it returns) is used further - "
+        "three appends behind the reported last index, kill at that quiescent point, second start, read",
     ]
     shutil.rmtree(sc, ignore_errors=True)
     return c.finish(
         rule="operation histories (append, batch, truncate, compaction, hard state, membership) from TLC simulation of "
              "CrashStore.tla run on a real node under a journal of its file mutations; for every prefix of the journal the "
              "directory image is rebuilt and opened by the real start-up code, and TLC evaluates the crash contract (Reopens, "
-             "Contiguous, KeepsAcked, OnlySubmitted, MetaWritten, AppliedReproducible) on every image; non-trivial = images "
+             "Contiguous, KeepsAcked, OnlySubmitted, MetaWritten, AppliedReproducible, LastIndexReadable, UsableAfterRecovery) on every "
+             "image; non-trivial = images "
              "with an operation in flight",
         checker_cmd="tools/vcheck C04 --tier %s" % tier)
 
